@@ -253,6 +253,15 @@ def run():
     scs += race_scenarios(ctx, 24 if q else 200, 16 if q else 120)
     scs += big_scenarios(ctx)
 
+    # diagnostic (never a verdict): a backend that does NOT serialise Writer() -- two writers, the frame encoded second is
+    # closed (put on the wire) first.  The model predicts that the reader cannot decode it (HeadDecodable fails).
+    diag = {"id": "C13/diag/nonexcl", "kind": "wswindow",
+            "p": {"mode": "ct", "level": 6, "bits": 15, "content": "rep", "rchunk": 0, "seed": 7, "fam": "gated", "excl": 0},
+            "steps": [{"a": "start", "tag": 1, "n": 300}, {"a": "start", "tag": 2, "n": 300},
+                      {"a": "acq", "tag": 1}, {"a": "enc", "tag": 1}, {"a": "emit", "tag": 1},
+                      {"a": "acq", "tag": 2}, {"a": "enc", "tag": 2}, {"a": "emit", "tag": 2},
+                      {"a": "rel", "tag": 2}, {"a": "rel", "tag": 1}, {"a": "read"}, {"a": "read"}]}
+    scs.append(diag)
     retry(ctx.build_harness)
     trace = ctx.run_scenarios(scs, "c13", par=8, timeout=1500)
     verdicts, r = retry(ctx.validate, trace, "MonC13", consts=MON_CONSTS, timeout=1200)
@@ -260,7 +269,13 @@ def run():
         if "ScriptNotEnabled" in v.get("bad", []):
             ctx.notes.append("%s: a scripted step was not enabled in the model (script/harness problem) -- not judged" % sc)
             del verdicts[sc]
-    ctx.judge(scs, trace, verdicts)
+    dv = verdicts.get(diag["id"])
+    if dv is not None:
+        ctx.notes.append("diagnostic %s (backend without writer exclusivity, outside the property's premises): model verdict %s -- "
+                         "%s" % (diag["id"], sorted(dv.get("bad", [])),
+                                 "the real transport fails exactly where the model predicts" if "ModelInvariant" in dv.get("bad", [])
+                                 and len(dv.get("bad", [])) > 1 else "no divergence observed"))
+    ctx.judge(scs, trace, verdicts, clause_filter=lambda sc, b: not sc.startswith("C13/diag/"))
     ctx.finish(rule="scenarios = complete paths of the generator configurations of WsWindow.tla (configuration grid mode x level 0..9 x "
                     "window bits x message-class sequences; deep class sequences; eager/lazy/any read interleavings; gated interleavings "
                     "of two concurrent writers) replayed lock-step on a real websocket.New pair (in-memory Conn) and a real quic.New pair "
